@@ -71,7 +71,13 @@ pub fn make_bases<G: Cv>(env: &Env<G>, seed: u64, tier: Tier) -> Vec<Base<G>> {
             let pr = program::try_prove::<G>(&prog, &env.pc, &env.bp, seed, "c04", Dev::None).ok()?;
             let bytes = pr.proof.clone().ok()?;
             let k = Parts::<G>::parse(&bytes)?.l.len();
-            let proof = R1CSProof::<G>::from_bytes(&bytes).unwrap();
+            let proof = pr.obj.clone()?;
+            // the alterations go through the decoder: if the decoder does not even accept the honest
+            // encoding (C11's business) this base cannot be used
+            if R1CSProof::<G>::from_bytes(&bytes).is_err() {
+                println!("C04 note: the honest encoding of {} does not decode (C11's business); base skipped", prog.name());
+                return None;
+            }
             let ok = program::verify::<G>(&prog, &env.pc, &env.bp, seed, Dev::None, &pr.commitments, &proof, program::LABEL).result.is_ok();
             if !ok {
                 println!("C04 note: base proof for {} is not accepted by the verifier (C01's business); base skipped", prog.name());
